@@ -97,6 +97,7 @@ Inductive error :=
 | ENotNull (t c : string)          (* sqlite3.IntegrityError: NOT NULL constraint failed *)
 | EBadTaskName (name ns : val)     (* ValueError from Task._validate in the companion-value back-fill *)
 | EUnknownRev (r : string)
+| EUnique (t c : string)           (* sqlite3.IntegrityError: UNIQUE constraint failed (only where the model inserts rows itself) *)
 | EGuard.                          (* an operation was run under a dialect its guard excludes *)
 
 Inductive result (A : Type) := Ok (a : A) | Err (e : error).
@@ -118,6 +119,10 @@ Record env := { e_dialect : dialect; e_tz : Z -> Z; e_now : val }.
 
 (* ------------------------------------------------------------------ operations *)
 Inductive utc_variant := Truncating | KeepFraction.
+(** Variant sites of the companion-value back-fill (30ffbaee18cd): which tasks count as lonely,
+    and how the new Value objects are written. As shipped: [AnyValue], [AddRow]. *)
+Inductive lonely_test := AnyValue | TypedValue.
+Inductive write_mode := AddRow | MergeRow.
 
 Inductive op :=
 | CreateTable (t : string) (cs : list column)
@@ -127,7 +132,7 @@ Inductive op :=
 | AlterNullable (t c : string) (nullable : bool)
 | AlterType (t c ty : string)
 | SqlNoData (what : string)          (* DDL without effect on rows or on the modelled schema *)
-| BackfillTaskValues (scripts : list string)
+| BackfillTaskValues (lt : lonely_test) (wm : write_mode) (scripts : list string)
 | StubExecutions
 | BackfillExecutionId
 | JobTimesToUtc (v : utc_variant)
@@ -178,8 +183,37 @@ Definition fullname (ns name : string) : string :=
   match ns with EmptyString => name | _ => (ns ++ "." ++ name)%string end.
 
 (* --- 30ffbaee18cd: a Value row for every Task row without one *)
-Definition lonely (values : list row) (tr : row) : bool :=
-  negb (existsb (fun vr => sql_eq (rget vr "value_hash") (rget tr "hash")) values).
+(** get_lonely_tasks: [AnyValue] = filter_by(value=None), no value row with the task's hash at all;
+    [TypedValue] = anti-join against the value rows of type "redun.Task" only. *)
+Definition lonely_by (lt : lonely_test) (values : list row) (tr : row) : bool :=
+  negb (existsb (fun vr => sql_eq (rget vr "value_hash") (rget tr "hash") &&
+                           match lt with
+                           | AnyValue => true
+                           | TypedValue => sql_eq (rget vr "type") (Some (VText "redun.Task"))
+                           end) values).
+Definition lonely : list row -> row -> bool := lonely_by AnyValue.
+
+Definition same_value_hash (a b : row) : bool := sql_eq (rget a "value_hash") (rget b "value_hash").
+Definition getv (r : row) (c : string) : val := match rget r c with Some v => v | None => VNull end.
+
+(** session.merge of a Value whose primary key exists: the row keeps its place, the mapped
+    non-key columns are overwritten. *)
+Definition overwrite (new : list row) (r : row) : row :=
+  match find (fun nr => same_value_hash nr r) new with
+  | Some nr => rset (rset (rset r "type" (getv nr "type")) "format" (getv nr "format")) "value" (getv nr "value")
+  | None => r
+  end.
+
+(** session.add + commit ([AddRow]: a second row with an existing primary key is an IntegrityError)
+    or session.merge + commit ([MergeRow]). *)
+Definition write_rows (wm : write_mode) (rows new : list row) : result (list row) :=
+  match wm with
+  | AddRow =>
+      if existsb (fun nr => existsb (same_value_hash nr) rows) new then Err (EUnique "value" "value_hash")
+      else Ok (rows ++ new)
+  | MergeRow =>
+      Ok (map (overwrite new) rows ++ filter (fun nr => negb (existsb (same_value_hash nr) rows)) new)
+  end.
 
 Fixpoint companion_rows (scripts : list string) (tasks : list row) : result (list row) :=
   match tasks with
@@ -308,13 +342,16 @@ Definition apply_op (e : env) (o : op) (d : db) : result db :=
         else Ok {| t_cols := set_col c (fun x => {| c_name := c_name x; c_type := "TIMESTAMPTZ"; c_null := c_null x |}) (t_cols T);
                    t_rows := t_rows T |})
   | SqlNoData _ => Ok d
-  | BackfillTaskValues scripts =>
+  | BackfillTaskValues lt wm scripts =>
       match lookup "task" (d_tables d) with
       | None => Err (ENoTable "task")
       | Some TT =>
           on_table "value" d (fun T =>
-            match companion_rows scripts (filter (lonely (t_rows T)) (t_rows TT)) with
-            | Ok rs => Ok {| t_cols := t_cols T; t_rows := t_rows T ++ rs |}
+            match companion_rows scripts (filter (lonely_by lt (t_rows T)) (t_rows TT)) with
+            | Ok rs => match write_rows wm (t_rows T) rs with
+                       | Ok rows => Ok {| t_cols := t_cols T; t_rows := rows |}
+                       | Err x => Err x
+                       end
             | Err x => Err x
             end)
       end
@@ -448,11 +485,12 @@ Definition db_agrees (res : result db) (want : db) : bool :=
   | Err _ => false
   end.
 
-Inductive expect_err := XNotNull (c : string) | XBadTask.
+Inductive expect_err := XNotNull (c : string) | XBadTask | XUnique (c : string).
 Definition err_agrees (res : result db) (x : expect_err) : bool :=
   match res, x with
   | Err (ENotNull _ c), XNotNull c' => String.eqb c c'
   | Err (EBadTaskName _ _), XBadTask => true
+  | Err (EUnique _ c), XUnique c' => String.eqb c c'
   | _, _ => false
   end.
 
